@@ -36,11 +36,22 @@ from rtc.harness import Collector, pmap_chunks
 
 PROP = "C03"
 
-VALUES_ALL = [9, 1, "z", "b", "a", "z w", "", "null", 2.5, True, False, None]
+VALUES_ALL = [9, 1, "z", "b", "a", "z w", "", "null", 2.5, True, False, None, "false", "True", "7", "1.5"]
 VALUES_FEW = [9, "z", None]
 
 
 def vcanon_of(value):
+    """What the document holds after `value` was set.  A TEXT value that spells a boolean or a number is stored as that
+    boolean / number (from-code: the default value format types text the way the command line needs it; `--format`
+    chooses otherwise) -- so "false" must arrive as false, never as true."""
+    if isinstance(value, str):
+        low = value.lower()
+        if low in ("true", "false"):
+            return ["bool", low == "true"]
+        if re.fullmatch(r"-?\d+", value):
+            return ["int", int(value)]
+        if re.fullmatch(r"-?\d+\.\d+", value):
+            return ["float", repr(float(value))]
     return K.scalar_canon(value)
 
 
